@@ -1,10 +1,18 @@
 """Shared scaffolding for function-level checks that drive formulas through Parser.parse."""
-from ..runner import BaseCheck
-from .. import env, hx
+import signal
+
+from ..runner import BaseCheck, WatchdogTimeout
+from .. import env, hx, probe
+
+CASE_WALL_SECONDS = 6.0
 
 
 class FormulaCheck(BaseCheck):
-    """run() dispatches to c_<campaign>(spec, rec) with self.e (hx.Env) and self.rec ready."""
+    """run() dispatches to c_<campaign>(spec, rec) with self.e (hx.Env) and self.rec ready.
+
+    Every parse runs under a cheap wall-clock guard.  When the guard fires the same formula is re-run under the
+    deterministic step counter: exceeding the step budget there is a *violation* (a call that does not terminate);
+    staying inside it is only *inconclusive* (a slow machine or a long C-level operation)."""
 
     def run(self, spec, rec):
         env.load()
@@ -16,8 +24,55 @@ class FormulaCheck(BaseCheck):
     def prepare(self, spec, rec):
         pass
 
+    # ---- guarded evaluation
+    def _alarm(self, *a):
+        raise WatchdogTimeout('case wall guard')
+
+    def parse(self, f):
+        old = signal.signal(signal.SIGALRM, self._alarm)
+        signal.setitimer(signal.ITIMER_REAL, CASE_WALL_SECONDS)
+        try:
+            return self.e.p.parse(f)
+        except WatchdogTimeout:
+            signal.setitimer(signal.ITIMER_REAL, 0)
+            return self._decide_nontermination(f)
+        finally:
+            signal.setitimer(signal.ITIMER_REAL, 0)
+            signal.signal(signal.SIGALRM, old)
+
+    def _decide_nontermination(self, f):
+        sc = probe.StepCounter()
+        sc.start()
+        try:
+            budget = probe.budget_for(f, 50)
+            signal.signal(signal.SIGALRM, self._alarm)
+            signal.setitimer(signal.ITIMER_REAL, 60)
+            try:
+                r, steps, exceeded = sc.run(lambda: self.e.p.parse(f), budget)
+            except WatchdogTimeout:
+                r, steps, exceeded = None, sc.steps, None
+            finally:
+                signal.setitimer(signal.ITIMER_REAL, 0)
+        finally:
+            sc.stop()
+        fn = f.split('(')[0][:20]
+        if exceeded is not None:
+            vars_ = {k: v for k, v in self.e.p.variables.items() if k.startswith(('v_', 'it_'))}
+            self.rec.violation('%s/call-does-not-terminate:%s' % (self.ID, fn), formula=f, steps=steps, budget=budget, where=exceeded.where, variables=vars_)
+        else:
+            self.rec.inconcl('wall guard fired on %r but the step budget was not exceeded (%s line events)' % (f[:120], steps))
+        return r if r is not None else {'result': None, 'error': '#HXMON-ABORTED'}
+
     def ev(self, f, **vars):
-        return self.e.val(f, **vars)
+        if vars:
+            self.e.bind(**vars)
+        r = self.parse(f)
+        return r['result'] if r['error'] is None else 'ERR:' + str(r['error'])
+
+    def raw(self, f, **vars):
+        if vars:
+            self.e.bind(**vars)
+        return self.parse(f)
 
     @staticmethod
     def is_err(v, code=None):
